@@ -31,6 +31,13 @@
 // value + stderr + a global activation log), and the main loop must still run
 // in constant stack.
 //
+// A fifth family ("sequence") runs K in {2,3,5} separate loops of n turns on
+// ONE runtime (separate top-level forms, a dotimes body, a map callback,
+// successive host FunCall entries; one function, two alternating functions or
+// a 2-cycle) with Stack.MaxTailIterations set to every value of {n, n+1, 2n-1,
+// 2n, K*n-1, K*n}: no single loop reaches the limit, so a limit error that
+// appears only with elimination on is a transparency violation.
+//
 // No expected value is written down except the index of the innermost handler
 // (computed from N).
 package c02
@@ -81,7 +88,7 @@ func checkProgram(p *pool, c Case, cfgs []string) ([]finding, progResult) {
 	res := map[string]obs{}
 	has := map[string]bool{}
 	for _, cfg := range cfgs {
-		res[cfg] = execute(p, src, cfg)
+		res[cfg] = execute(p, src, optsOf(c), cfg)
 		has[cfg] = true
 	}
 	if !has[cfgOn] || !has[cfgOff] {
@@ -212,8 +219,9 @@ func (g group) kase(n int) Case {
 
 // nrun is one iteration count and the configurations it is executed under.
 type nrun struct {
-	N    int
-	Cfgs []string
+	N     int
+	Cfgs  []string
+	Limit int // sequence family: Stack.MaxTailIterations
 }
 
 var stackNs = map[int]bool{10: true, 100: true, 1000: true}
@@ -233,18 +241,37 @@ var onOff = []string{cfgOn, cfgOff}
 // estimate; the profiler and plain configurations differ from "on" by one
 // deferred call / the absence of a context and are covered at depth <= 2.)
 func plan(g group, thorough bool) []nrun {
+	if g.Family == "sequence" {
+		// K loops of n turns each; the limit takes every value of
+		// {n, n+1, 2n-1, 2n, K*n-1, K*n}: each single loop fits, the sum may not
+		turnCounts := []int{3, 10}
+		if thorough {
+			turnCounts = []int{2, 3, 10, 30}
+		}
+		var out []nrun
+		for _, n := range turnCounts {
+			seen := map[int]bool{}
+			for _, l := range []int{n, n + 1, 2*n - 1, 2 * n, g.K*n - 1, g.K * n} {
+				if !seen[l] {
+					seen[l] = true
+					out = append(out, nrun{N: n, Cfgs: allConfigs, Limit: l})
+				}
+			}
+		}
+		return out
+	}
 	if g.Family == "multiform" {
 		// quick: N <= 10 (the side call needs a reused frame: 2 turns);
 		// thorough adds N=100, under {on, off} for side shapes of depth 2
 		var out []nrun
 		for _, n := range []int{0, 1, 2, 3, 10} {
-			out = append(out, nrun{n, allConfigs})
+			out = append(out, nrun{N: n, Cfgs: allConfigs})
 		}
 		if thorough {
 			if len(g.Shape) <= 1 {
-				out = append(out, nrun{100, allConfigs})
+				out = append(out, nrun{N: 100, Cfgs: allConfigs})
 			} else {
-				out = append(out, nrun{100, onOff})
+				out = append(out, nrun{N: 100, Cfgs: onOff})
 			}
 		}
 		return out
@@ -253,18 +280,18 @@ func plan(g group, thorough bool) []nrun {
 	big := (g.Family == "tail" && d >= 3) || (g.Family != "tail" && d-1 >= 2)
 	var out []nrun
 	for _, n := range []int{0, 1, 2, 3, 10} {
-		out = append(out, nrun{n, allConfigs})
+		out = append(out, nrun{N: n, Cfgs: allConfigs})
 	}
 	if !big {
-		out = append(out, nrun{100, allConfigs})
+		out = append(out, nrun{N: 100, Cfgs: allConfigs})
 		if thorough {
-			out = append(out, nrun{1000, allConfigs})
+			out = append(out, nrun{N: 1000, Cfgs: allConfigs})
 		}
 		return out
 	}
-	out = append(out, nrun{100, onOff})
+	out = append(out, nrun{N: 100, Cfgs: onOff})
 	if g.Family == "tail" && g.Args == "acc" && g.Err == "none" && g.Def == "" {
-		out = append(out, nrun{1000, onOff})
+		out = append(out, nrun{N: 1000, Cfgs: onOff})
 	}
 	return out
 }
@@ -279,6 +306,7 @@ func checkGroup(p *pool, g group, runs []nrun, each func(Case, []string, progRes
 	var hs []hp
 	for _, nr := range runs {
 		c := g.kase(nr.N)
+		c.Limit = nr.Limit
 		fs, pr := checkProgram(p, c, nr.Cfgs)
 		if each != nil {
 			each(c, nr.Cfgs, pr)
@@ -364,11 +392,11 @@ func runsFor(c Case) []nrun {
 	if c.Oracle == "constant-stack" && len(c.Ns) > 0 {
 		var out []nrun
 		for _, n := range c.Ns {
-			out = append(out, nrun{n, allConfigs})
+			out = append(out, nrun{N: n, Cfgs: allConfigs})
 		}
 		return out
 	}
-	return []nrun{{c.N, allConfigs}}
+	return []nrun{{N: c.N, Cfgs: allConfigs, Limit: c.Limit}}
 }
 
 // confirm re-runs the case 5 times in fresh runtimes and keeps a finding only
@@ -409,7 +437,7 @@ func (e *explorer) runGroups(groups []group) {
 				r.AddTransitions(int64(len(cfgs))) // frame-count checks
 			}
 			src := Source(c)
-			h := sha256.Sum256([]byte(src))
+			h := sha256.Sum256([]byte(fmt.Sprintf("%s#limit=%d", src, c.Limit)))
 			var k [16]byte
 			copy(k[:], h[:16])
 			e.mu.Lock()
@@ -422,8 +450,8 @@ func (e *explorer) runGroups(groups []group) {
 					e.notHigher++
 				}
 			}
-			key := g.Family + g.Def + "/" + blk + "/" + c.Err + "/" + fmt.Sprint(len(c.Shape))
-			want := !e.sampled[key] && c.N == 3 && c.Topo == 2 && len(e.sampled) < 12
+			key := g.Family + g.Def + g.Starter + "/" + blk + "/" + c.Err + "/" + fmt.Sprint(len(c.Shape))
+			want := !e.sampled[key] && c.N == 3 && (c.Topo == 2 || g.Family == "sequence") && len(e.sampled) < 24
 			if want {
 				e.sampled[key] = true
 			}
@@ -433,7 +461,7 @@ func (e *explorer) runGroups(groups []group) {
 					"max_height_on": pr.heightOn, "max_height_off": pr.heightOff})
 			}
 			if !dup && pr.iterated && pr.fits {
-				r.Nontrivial(src)
+				r.Nontrivial(fmt.Sprintf("%s#limit=%d", src, c.Limit))
 			}
 			r.Outcome(g.Family + g.Def + " " + blk + " err=" + c.Err + " -> " + pr.outcomeKind)
 		})
@@ -504,6 +532,22 @@ func makeGroups(family string, shapes [][]string) []group {
 				if family == "tail" {
 					// the same loop as labels-bound closures (error-free runs only)
 					gs = append(gs, group{Case{Family: family, Def: "labels", Shape: s, Topo: topo, Args: a, Err: "none"}})
+				}
+			}
+		}
+	}
+	return gs
+}
+
+// makeSeqGroups: loop shapes x starter x function pattern x K.
+func makeSeqGroups(shapes [][]string) []group {
+	var gs []group
+	for _, s := range shapes {
+		for _, st := range starters {
+			for _, fp := range funcPatterns {
+				for _, k := range []int{2, 3, 5} {
+					gs = append(gs, group{Case{Family: "sequence", Shape: s, Topo: 1, Args: "acc", Err: "none",
+						Starter: st, Funcs: fp, K: k}})
 				}
 			}
 		}
@@ -588,6 +632,9 @@ func run(r *core.Run) {
 		"definition_styles": "defun and labels for the body container (each with main call direct|funcall|apply); defun + direct for the other containers",
 		"argument_styles":   "quick: acc; thorough: all three for side shapes of depth<=1, acc for depth 2",
 		"iteration_counts":  "quick: 0,1,2,3,10; thorough adds 100 (all configurations for depth<=1, on+off for depth 2)"})
+	r.Bound("sequence_dimensions", map[string]any{"loop_shape_depth": mfDepth, "starters": starters, "function_patterns": funcPatterns,
+		"loops_K": []int{2, 3, 5}, "turns_per_loop_n": "quick 3,10; thorough 2,3,10,30",
+		"Stack.MaxTailIterations": "every value of {n, n+1, 2n-1, 2n, K*n-1, K*n}", "argument_style": "acc"})
 	r.Bound("configurations", allConfigs)
 	r.Rule("a program is every (shape, topology, argument style, error mode, N); non-trivial = it performs at least one recursive call (N>=1) and its elimination-off run stays inside the stack limits so that the transparency relation applies; distinct by source text")
 	r.Assume("elimination off = Runtime.Debugger set to an attached, never-enabled debugger; profiler = a lisp.Profiler that only counts spans")
@@ -598,6 +645,7 @@ func run(r *core.Run) {
 	r.Assume("OP-* positions put the operand in the operator position of a tail call (compound head, zero or one argument, or a let-/labels-bound function called in the head); programs with such a token return functions from the loop (c02-fn) and the top level extracts the payload; self and 2-cycle topologies")
 	r.Assume("NT-* positions (including `and`) are not terminal and XP-* positions put the call in a macro's expansion: only transparency is demanded for them")
 	r.Assume("multiform: the side call (a recursive call in the tail of a NON-last form of a multi-form body) is made with n=-100, so its activation goes straight to the base case, prints there and logs itself in g-log; the program's value is (list result g-log)")
+	r.Assume("sequence: K separate loops of n turns run on ONE runtime with Stack.MaxTailIterations >= n, so no single loop reaches the limit; with elimination off the limit is never consulted, hence any limit error with elimination on is a transparency violation")
 	r.Assume("one runtime per worker and configuration is reused for up to 256 programs (they only redefine globals); it is dropped when a run leaves frames behind, is cancelled or panics; every disagreement is re-confirmed 5x in fresh runtimes")
 	r.Assume("violations are reported minimal-shape-first: a shape that contains an already reported shape (same relation) as a subsequence is counted under subsumed_violations, not reported")
 
@@ -606,8 +654,9 @@ func run(r *core.Run) {
 		"blocked":           byDepth(insertedShapes(insDepth, blockerTokens)),
 		"transparency-only": byDepth(insertedShapes(1, append(append([]string{}, nontailTokens...), headTokens...))),
 		"multiform":         byDepth(tailShapes(mfDepth)),
+		"sequence":          byDepth(tailShapes(mfDepth)),
 	}
-	for _, f := range []string{"tail", "blocked", "transparency-only", "multiform"} {
+	for _, f := range []string{"tail", "blocked", "transparency-only", "multiform", "sequence"} {
 		n := 0
 		for _, ss := range fam[f] {
 			n += len(ss)
@@ -624,6 +673,7 @@ func run(r *core.Run) {
 		{"tail", 0}, {"tail", 1}, {"tail", 2},
 		{"blocked", 1}, {"blocked", 2},
 		{"transparency-only", 1}, {"transparency-only", 2},
+		{"sequence", 0}, {"sequence", 1}, {"sequence", 2},
 		{"multiform", 0}, {"multiform", 1}, {"multiform", 2},
 		{"blocked", 3}, {"tail", 3},
 	}
@@ -638,7 +688,9 @@ func run(r *core.Run) {
 		}
 		t0 := time.Now()
 		var gs []group
-		if st.family == "multiform" {
+		if st.family == "sequence" {
+			gs = makeSeqGroups(shapes)
+		} else if st.family == "multiform" {
 			args := []string{"acc"}
 			if r.Thorough() && st.length <= 1 {
 				args = argStyles
